@@ -45,3 +45,4 @@ def run(ctx):
     R3.r01_9_user_classes_registered_last(ctx)
     R3.r04_10_key_test_table(ctx, 'R01.11')
     S.r02_2_attrset(ctx, 'R01.12')
+    R3.r01_13_extras_partition(ctx, 'R01.13')
